@@ -63,6 +63,10 @@ def classify(fn, case, exp, got):
         kind = 'different-events'
     if fn['family'].startswith('chain'):
         ops, cont = fn['ops'], fn['containers']
+        if fn['family'] == 'chain-typed' and ops[0] in ('in', 'not in') and fn['first_chain_len'] >= 2 and \
+                'C' in fn['cls'].rsplit(':', 1)[-1] and og in ('SystemError', 'ok') and oe != og:
+            # the C operand after a membership link is cast to PyObject* (0 -> NULL -> SystemError; else a crash)
+            return 'cmp:in-cascade-c-operand-cast-to-pointer:%s' % og
         if fn['ctx'] == 'not' and fn['first_chain_len'] > 1 and ops[0] in ('is', 'is not', 'in', 'not in'):
             # ConstantFolding._handle_NotNode flips the first operator of a cascaded comparison
             return 'cmp:not-of-chain-starting-with-is-or-in:%s->%s' % ('result' if oe == og == 'ok' else oe, og)
